@@ -111,7 +111,7 @@ pub fn run_ref(s: &Script, c: &Compiled) -> RefOut {
     let host = if s.kind.v1() { Host::V1(Box::new(ModelV1::new(s, AMPLE))) } else { Host::V0(ModelV0::new(s, AMPLE)) };
     let mut mach = Machine::new(&c.module, host, 3_000_000, if s.cost_v1 { Cost::V1 } else { Cost::V0 });
     // MAX_ACTIVATION_FRAMES nested calls below the entrypoint
-    mach.max_depth = MAX_ACTIVATION_FRAMES + 1;
+    mach.max_depth = MAX_ACTIVATION_FRAMES + 1 + brk("depth") as u32;
     // initial memory is charged before execution starts
     mach.energy = MEMORY_COST_FACTOR * c.layout.pages as u64;
     let r = mach.invoke(c.entry, &[V::I64(s.amount as i64)]);
